@@ -148,13 +148,14 @@ Theorem C05_method_filter_agrees : forall targs mp mn s s',
 Proof. exact method_filter_agrees. Qed.
 Print Assumptions C05_method_filter_agrees.
 
-(* ... and it is FALSE without the spelling hypothesis (recorded finding
-   dce-unexported-method-byte-uint8-spelling-mismatch): write([]byte) rune / write([]uint8) int32 *)
-Theorem C05_method_filter_refuted : exists s s',
-  sig_identical s' (sig_subst TNil s) = true /\ sig_wf s = true /\
-  meth_filter [] "main" "write" s' <> meth_filter [] "main" "write" s.
-Proof. exact method_filter_refuted. Qed.
-Print Assumptions C05_method_filter_refuted.
+(* ... the historic witness of the (repaired) finding dce-unexported-method-byte-uint8-spelling-mismatch,
+   write([]byte) rune / write([]uint8) int32, now gets equal filters: filterGen.Type prints the canonical
+   name of byte and rune.  (The general statement without the spelling hypothesis is not proved yet.) *)
+Theorem C05_method_filter_alias_witness_agrees :
+  sig_identical sig_write_uint8 (sig_subst TNil sig_write_byte) = true /\ sig_wf sig_write_byte = true /\
+  meth_filter [] "main" "write" sig_write_uint8 = meth_filter [] "main" "write" sig_write_byte.
+Proof. exact method_filter_alias_witness_agrees. Qed.
+Print Assumptions C05_method_filter_alias_witness_agrees.
 
 (* filterGen's replacement map = printing the substituted signature (generic receivers) *)
 Theorem C05_filter_subst : forall ta s, sig_wf s = true ->
@@ -178,23 +179,23 @@ Theorem C05_select_sound : forall p, prog_ok p = true ->
 Proof. exact reach_selected. Qed.
 Print Assumptions C05_select_sound.
 
-(* Full statement (visible, FALSE for the code as it is): the same without [prog_ok], whose only
-   semantic content is "no type is spelled byte / rune" (and variadic parameters are slices). *)
+(* Full statement (visible, NOT proved): the same without [prog_ok], whose only semantic content is "no type
+   is spelled byte / rune" (and variadic parameters are slices).  Its two historic counterexamples (findings
+   dce-unexported-method-byte-uint8-spelling-mismatch and dce-generic-instance-byte-uint8-spelling-mismatch,
+   both repaired in /repo) are now selected; no counterexample is known. *)
 Definition C05_select_sound_full_statement : Prop :=
   forall p g i, Reach p g -> nth_error p i = Some g ->
   exists ids, select (compile p) = Some ids /\ In (N.of_nat i) ids.
 
-Theorem C05_select_sound_refuted_iface : ~ C05_select_sound_full_statement.
-Proof. exact select_sound_refuted_iface. Qed.
-Print Assumptions C05_select_sound_refuted_iface.
+Theorem C05_select_sound_alias_witness_iface :
+  Reach w1 w1_meth /\ exists ids, select (compile w1) = Some ids /\ In 2%N ids.
+Proof. exact select_sound_alias_witness_iface. Qed.
+Print Assumptions C05_select_sound_alias_witness_iface.
 
-(* second witness (NEW finding dce-generic-instance-byte-uint8-spelling-mismatch): the instance Decl
-   F[byte] (named after the spelling seen first, in dead code) is needed by main's F[uint8] *)
-Theorem C05_select_sound_refuted_instance : exists p g i,
-  Reach p g /\ nth_error p i = Some g /\
-  exists ids, select (compile p) = Some ids /\ ~ In (N.of_nat i) ids.
-Proof. exact select_sound_refuted_instance. Qed.
-Print Assumptions C05_select_sound_refuted_instance.
+Theorem C05_select_sound_alias_witness_instance :
+  Reach w2 w2_inst /\ exists ids, select (compile w2) = Some ids /\ In 2%N ids.
+Proof. exact select_sound_alias_witness_instance. Qed.
+Print Assumptions C05_select_sound_alias_witness_instance.
 
 (* Non-vacuity: a canonical program in which an unexported method of a generic instance is reached only
    through an interface call, and is selected *)
